@@ -142,3 +142,5 @@ pub fn script_error_kind(e: &ScriptError) -> String {
         ScriptError::UnknownPreProcessorCommand(_) => "UnknownPreProcessorCommand".to_string(),
     }
 }
+
+pub mod parsefmt;
